@@ -95,6 +95,15 @@ func (fr *Frame) intercept(st *State, fn *ssa.Function, pkg string, args []Val, 
 	case "time.Now":
 		ex.trusted["time: Now arbitrary, Sub/After/Before/Add uninterpreted functions of their operands"] = true
 		return fr.havocResult(st, fn.Signature.Results(), "now"), true
+	case "math/rand.Intn", "math/rand.Int63n", "math/rand.Int31n", "math/rand/v2.IntN":
+		ex.trusted["math/rand.Intn(n): an arbitrary value in [0,n); panics for n <= 0"] = true
+		fr.safetyNamed(st, "assert", Gt(args[0].T, IntLit(0)), pos, "rand.Intn argument > 0", instr)
+		v := ex.ctx.Fresh("rand", SInt)
+		ex.assume(st, And(Le(IntLit(0), v), Lt(v, args[0].T)))
+		return Val{T: v}, true
+	case "math/rand.Uint32", "math/rand.Int31", "math/rand.Int63", "math/rand.Int":
+		ex.trusted["math/rand: arbitrary value of the result type"] = true
+		return fr.havocResult(st, fn.Signature.Results(), "rand"), true
 	case "math.Sqrt":
 		ex.trusted["math.Sqrt: real square root (no rounding)"] = true
 		x := args[0].T
